@@ -269,6 +269,24 @@ func init() {
 				buildCase(cw, []interface{}{rscp.BAT_REQ_DATA, u, g.byType[rscp.None][0]}, "unknown-neighbour nested")
 			}
 		}
+		// a slice as an argument (a forgotten `...`), alone and among others: a value where a tag is expected
+		for _, inner := range [][]interface{}{{}, {g.byType[rscp.None][0]}, {g.byType[rscp.CString][0], "v"}, {g.byType[rscp.CString][0]}, {rscp.BAT_REQ_DATA, g.byType[rscp.None][0]}} {
+			buildCase(cw, []interface{}{inner}, "slice-as-argument alone")
+			buildCase(cw, []interface{}{inner, inner}, "slice-as-argument twice")
+			buildCase(cw, []interface{}{rscp.BAT_REQ_DATA, inner}, "slice-as-argument nested")
+			buildCase(cw, []interface{}{g.byType[rscp.CString][0], inner}, "slice-as-argument as value")
+			buildsCase(cw, [][]interface{}{{inner}}, "slice-as-argument multi")
+		}
+		buildCase(cw, []interface{}{[]rscp.Tag{g.byType[rscp.None][0]}}, "tag-slice-as-argument")
+		buildCase(cw, []interface{}{[]rscp.Message{}}, "message-slice-as-argument")
+		// values of the package's own enumeration types after value-carrying tags: RscpError is the value type of the tags of
+		// data type Error, AuthLevel is a plain value everywhere; only Tag and DataType are "not a value"
+		for _, t := range append(append([]rscp.Tag{}, g.byType[rscp.Error]...), g.byType[rscp.UChar8][0], g.byType[rscp.CString][0], g.byType[rscp.Uint32][0]) {
+			for _, v := range []interface{}{rscp.RscpError(2), rscp.RscpError(0), rscp.RscpError(4294967295), rscp.AuthLevel(1), rscp.Tag(5), rscp.Bool} {
+				buildCase(cw, []interface{}{t, v}, "enum-typed value")
+				buildCase(cw, []interface{}{rscp.BAT_REQ_DATA, t, v, g.byType[rscp.None][0]}, "enum-typed value nested")
+			}
+		}
 		// pointer arguments in value position
 		for _, ptr := range al[len(al)-6:] {
 			for _, t := range []rscp.Tag{g.byType[rscp.Bool][0], g.byType[rscp.CString][0], g.byType[rscp.UInt16][0]} {
